@@ -3,6 +3,7 @@ import re
 
 from framework import scale, CaseResult, text_points, points_text
 from props.basiccommon import run_lst2bas, vocabulary, split_listing_lines
+from props.tapecommon import CaseDir, run_tool
 
 GEN_FILES = ["GenBasic"]
 RULE = ("numbered listings generated from lexeme lists over the full frozen vocabulary (statements, operators, functions; any letter case): keywords, "
@@ -108,7 +109,9 @@ def systematic_cases(rng):
 def gen_cases(rng, tier):
     n = scale(tier, 600, 20000)
     sysc = systematic_cases(rng)
-    return sysc + [gen_case(rng) for _ in range(n)], {"random": n, "every keyword x every left/right context": len(sysc)}
+    nm = scale(tier, 30, 500)
+    multi = [{"multi": [gen_case(rng) for _ in range(rng.choice([2, 2, 3]))]} for _ in range(nm)]
+    return sysc + [gen_case(rng) for _ in range(n)] + multi, {"random": n, "every keyword x every left/right context": len(sysc), "several listings in one run": nm}
 
 
 def text_of(case):
@@ -131,7 +134,39 @@ def sx_lex(lx):
     return out
 
 
+def run_multi(case, ctx):
+    """several listings given to ONE invocation: every image is the image of a run on that listing alone"""
+    cd = CaseDir(ctx)
+    try:
+        dis = bad = None
+        texts = [text_of(c) for c in case["multi"]]
+        names = []
+        for k, t in enumerate(texts):
+            cd.put("p%d.lst" % k, t.encode("utf-8"))
+            names.append("p%d.lst" % k)
+        r = run_tool(ctx, "lst2bas", names, cd)
+        ms = [ctx.model.call("tokenize", ctx.model.call("readlines_file", text_points(t))) for t in texts]
+        if all(m[0] == 0 for m in ms):
+            if r.get("status") != 0 or r.get("exc"):
+                bad = {"tool failed": [r.get("status"), r.get("exc"), r.get("msg")]}
+            else:
+                for k, m in enumerate(ms):
+                    out = cd.get("p%d.bas" % k)
+                    if out != bytes(m[1]):
+                        bad = {"image of source differs from a run on it alone": k}
+                        dis = {"source": k, "impl": (out or b"").hex()[:160], "model": bytes(m[1]).hex()[:160]}
+                        break
+        elif r.get("status") == 0 and not r.get("exc"):
+            dis = {"model refuses a listing the tool accepts": [m[0] for m in ms]}
+        detail = {"disagreement": dis, "oracle": bad} if (dis or bad) else None
+        return CaseResult(dis is None, bad is None, detail, ["multi", "n:%d" % len(texts)], True)
+    finally:
+        cd.close()
+
+
 def run_case(case, ctx):
+    if "multi" in case:
+        return run_multi(case, ctx)
     text = text_of(case)
     r, out = run_lst2bas(ctx, text)
     m = ctx.model.call("tokenize", ctx.model.call("readlines_file", text_points(text)))
@@ -187,6 +222,12 @@ def run_case(case, ctx):
 
 
 def shrink_candidates(case):
+    if "multi" in case:
+        m = case["multi"]
+        for k in range(len(m)):
+            if len(m) > 1:
+                yield {"multi": m[:k] + m[k + 1:]}
+        return
     ls = case["lines"]
     for k in range(len(ls)):
         yield dict(case, lines=ls[:k] + ls[k + 1:])
@@ -200,6 +241,8 @@ def shrink_candidates(case):
 
 
 def summarise(case):
+    if "multi" in case:
+        return {"texts": [text_of(c)[:120] for c in case["multi"]]}
     return {"text": text_of(case)[:300]}
 
 
